@@ -161,9 +161,50 @@ pub fn parse_shape(shape: &str) -> Vec<LineT> {
     v
 }
 
+thread_local! {
+    /// (`win`, `zero`) of the unit being run: steps `t >= win` carry fixed constants instead of symbolic inputs
+    /// (long series with a symbolic window); the inputs named in `zero` are the constant +0.0
+    static SERIES: std::cell::RefCell<(usize, Vec<String>)> = std::cell::RefCell::new((usize::MAX, vec![]));
+}
+
+/// Read the unit parameters `win=<k>` and `zero=<name>,<name>..` (see `line_value`).
+pub fn configure(u: &Unit) {
+    let win = u.get("win").parse::<usize>().unwrap_or(usize::MAX);
+    let zero: Vec<String> = u.get("zero").split(',').filter(|s| !s.is_empty()).map(|s| s.to_string()).collect();
+    SERIES.with(|s| *s.borrow_mut() = (win, zero));
+}
+
+/// Constant carried by line `stem` at a step outside the symbolic window: a fixed table indexed by a hash of the
+/// name, exactly representable, with zeros, equal neighbours and a wide range so that production above, equal to
+/// and below the use all occur along the series.
+fn series_constant(stem: &str, t: usize, dom: Dom) -> f32 {
+    const TABLE: [f32; 12] = [0.0, 12.5, 40.0, 100.0, 7.25, 250.0, 0.0, 64.0, 100.0, 3.5, 18.75, 512.0];
+    let mut h: u64 = 0xcbf29ce484222325;
+    for b in stem.bytes().chain([t as u8, (t >> 8) as u8]) {
+        h = (h ^ b as u64).wrapping_mul(0x100000001b3);
+    }
+    let v = TABLE[(h % 12) as usize];
+    match dom {
+        Dom::EnergyPos if v == 0.0 => 1.5,
+        Dom::EnergySigned if (h >> 20) & 1 == 1 => -v,
+        _ => v,
+    }
+}
+
 /// Input value (as F) of line `l` at step `t`; `sfx` distinguishes several evaluations.
 pub fn line_value(l: &LineT, t: usize) -> F {
-    input(&format!("{}_{}", l.stem, t), l.dom)
+    let name = format!("{}_{}", l.stem, t);
+    let (win, is_zero) = SERIES.with(|s| {
+        let s = s.borrow();
+        (s.0, s.1.iter().any(|z| *z == name))
+    });
+    if is_zero {
+        return k(0.0);
+    }
+    if t >= win {
+        return k(series_constant(&l.stem, t, l.dom));
+    }
+    input(&name, l.dom)
 }
 
 /// Render one line with the given value tokens.
